@@ -116,7 +116,12 @@ def render(entry_list, junk_list, mode, enc, eol, styles):
     for i, (p, c) in enumerate(entry_list):
         style = styles[i % len(styles)]
         raw = p.encode(enc)
-        hx = b'$HEX[' + raw.hex().encode('ascii') + b']'
+        hexd = raw.hex()
+        if style in (2, 5):
+            hexd = hexd.upper()                  # bytes.fromhex takes either case
+        elif style in (3, 6):
+            hexd = ''.join(ch.upper() if k % 3 == 0 else ch for k, ch in enumerate(hexd))
+        hx = b'$HEX[' + hexd.encode('ascii') + b']'
         if mode == 'plain':
             lines += [raw] * c
         elif mode == 'hex':
